@@ -1859,7 +1859,6 @@ func (p *balloons) pinCpuMem(c cache.Container, cpus cpuset.CPUSet, mems idset.I
 			} else {
 				zone := p.allocMem(c, preserveMems, 0, true)
 				log.Debug("  - allocated preserved memory %s", c.PrettyName, zone)
-				c.SetCpusetMems(zone.MemsetString())
 			}
 		} else {
 			effMemTypeMask, err := c.MemoryTypes()
@@ -1929,7 +1928,7 @@ func (p *balloons) allocMem(c cache.Container, mems idset.IDSet, types libmem.Ty
 	}
 
 	for oID, oz := range updates {
-		if oc, ok := p.cch.LookupContainer(oID); ok {
+		if oc, ok := p.cch.LookupContainer(oID); ok && !oc.PreserveMemoryResources() {
 			oc.SetCpusetMems(oz.MemsetString())
 		}
 	}
